@@ -213,7 +213,9 @@ def config_entries(max_entries=40, max_content=254, naming=True):
             kind = draw(st.integers(0, 9))
             if kind == 0 and not any(e[0] == k for e in out):
                 delkeys.add(k)
-                out.append((k, None, None))
+                # a key deletion is "value id None"; the content slot is then irrelevant and may hold None or (as the declared type
+                # Dict[..., bytes] suggests) some bytes
+                out.append((k, None, draw(st.sampled_from([None, None, b"", b"\x00", b"x"]))))
                 continue
             v = draw(st.one_of(st.integers(0, 0xFE), st.sampled_from([0, 1, 0xFE, 0x82])))
             if (k, v) in used:
